@@ -94,6 +94,9 @@ func (ecb *ecbBlockCipher) Decrypt(key []byte, parameters *asn1.RawValue, cipher
 	if err != nil {
 		return nil, err
 	}
+	if len(ciphertext)%block.BlockSize() != 0 {
+		return nil, errors.New("pbes: ciphertext is not a multiple of the block size")
+	}
 	mode := smcipher.NewECBDecrypter(block)
 	plaintext := make([]byte, len(ciphertext))
 	mode.CryptBlocks(plaintext, ciphertext)
@@ -146,7 +149,7 @@ func (c *cbcBlockCipher) Decrypt(key []byte, parameters *asn1.RawValue, cipherte
 	}
 
 	var iv []byte
-	if _, err := asn1.Unmarshal(parameters.FullBytes, &iv); err != nil {
+	if _, err := asn1.Unmarshal(parameters.FullBytes, &iv); err != nil || len(iv) != block.BlockSize() {
 		return nil, errors.New("pbes: invalid cipher parameters")
 	}
 
@@ -163,6 +166,9 @@ func cbcEncrypt(block cipher.Block, iv, plaintext []byte) ([]byte, error) {
 }
 
 func cbcDecrypt(block cipher.Block, iv, ciphertext []byte) ([]byte, error) {
+	if len(ciphertext)%block.BlockSize() != 0 {
+		return nil, errors.New("pbes: ciphertext is not a multiple of the block size")
+	}
 	mode := cipher.NewCBCDecrypter(block, iv)
 	pkcs7 := padding.NewPKCS7Padding(uint(block.BlockSize()))
 	plaintext := make([]byte, len(ciphertext))
